@@ -70,7 +70,7 @@ def labelOf? (j : Json) : Option Label := do
   | [.str "start", i, p, l] => some (.start (← jStr? i) (← jInt? p) (← jInt? l))
   | [.str "keepalive", i, lag] => some (.keepalive (← jStr? i) (← jNat? lag))
   | [.str "exitLost", i] => some (.exitLost (← jStr? i))
-  | [.str "deliverStale", i, v] => some (.deliverStale (← jStr? i) (← statusOfRecs? v))
+  | [.str "deliverStale", i, v, vv] => some (.deliverStale (← jStr? i) (← statusOfRecs? v) (← jNat? vv))
   | [.str "exit", i] => some (.exit (← jStr? i))
   | [.str "exitBegin", i] => some (.exitBegin (← jStr? i))
   | [.str "exitEnd", i] => some (.exitEnd (← jStr? i))
@@ -122,21 +122,25 @@ def handle : DrvHandler := fun op args =>
         | _ => none)
       some (ok (statusJson (ps.foldl (fun acc p => acc.patch p.1 p.2) st)))
   | "C13.stale", [j] => do
-      -- `deliverStale` as one step: verdict from the view at `now`, clean by identity on the current status
+      -- `deliverStale` as one step: verdict from the view (taken at version `vv`) at `now`; the clean names `vv` and is
+      -- applied only if the object (`current`, at version `ver`) is still at `vv`
       let u ← jInt? (← jField? j "u")
       let cur ← statusOfRecs? (← jField? j "current")
       let view ← statusOfRecs? (← jField? j "view")
+      let ver ← jNat? (← jField? j "ver")
+      let vv ← jNat? (← jField? j "vv")
       let me ← jStr? (← jField? j "me")
       let prio ← jInt? (← jField? j "prio")
       let paused ← jBool? (← jField? j "paused")
       let now ← jInt? (← jField? j "now")
-      let s0 : State := { now := now, ver := 0, status := cur,
+      let s0 : State := { now := now, ver := ver, status := cur,
                           ops := updOp (fun _ => none) me { prio := prio, lifetime := 60, alive := true, paused := paused, seen := none } }
-      match step u s0 (.deliverStale me view) with
-      | none => some (err "not-enabled")
+      match step u s0 (.deliverStale me view vv) with
+      | none => some (err "not-enabled")      -- the view claims the current version but is not the current status
       | some s1 => some (ok (Json.mkObj [("status", statusJson s1.status),
-          ("benign", .bool (benignView u s0 me prio view)),
-          ("sameVerdict", .bool (blockedB u view me prio now == blockedB u cur me prio now)),
+          ("refused", .bool (vv != ver)),
+          ("changed", .bool (s1.ver != s0.ver)),
+          ("sameVerdict", .bool (sameVerdict u s0 me prio view)),
           ("paused", match s1.ops me with | some o => .bool o.paused | none => .null),
           ("sleeping", match s1.ops me with | some o => .bool o.sleeping | none => .null)]))
   | "C13.run", [u, ids, labels] => do
